@@ -604,7 +604,7 @@ class Shelxfile():
             elif word == 'ANSC':
                 # ANSC six coefficients
                 if len(spline) == 7:
-                    self.ansc = [float(x) for x in spline[:1]]
+                    self.ansc = [float(x) for x in spline[1:]]
             elif word == 'ANSR':
                 # ANSR anres[0.001]
                 if len(spline) == 2:
